@@ -13,6 +13,7 @@ import (
 	"io"
 	"log"
 	"os"
+	"path/filepath"
 	"strings"
 	"testing"
 	"time"
@@ -22,6 +23,7 @@ import (
 	"github.com/dfklegend/cell2/baseapp"
 	"github.com/dfklegend/cell2/baseapp/interfaces"
 	"github.com/dfklegend/cell2/baseapp/module"
+	nodeapp "github.com/dfklegend/cell2/node/app"
 	"github.com/dfklegend/cell2/utils/runservice"
 )
 
@@ -34,12 +36,49 @@ type mod struct {
 
 type caseT struct {
 	n     int
-	isApp bool
+	kind  int // 0 plain ModList, 1 baseapp.App, 2 node/app.App (StartNode / StopNode through a launch mode)
 	mods  []*mod
 	ml    *module.ModList
 	app   *baseapp.App
+	node  *nodeapp.App
+	added bool      // node: the launch mode has added the modules
+	cb    [2]string // what the start- / stop-completion callback does: none | stop | gostop | start
 	log   []string
-	over  bool // app: the stop phase reported success; App.Cleanup has run, the case is over
+	fxT   int  // app: success reports of the stop phase seen so far
+	over  bool // app: the stop phase reported success twice; the case is over
+}
+
+func (c *caseT) isApp() bool { return c.kind >= 1 }
+
+const launchMode = "c11verif"
+
+var nodeCfgDir string
+
+// nodeCfg writes a minimal node configuration (one node, no services, clustering and node control off).
+func nodeCfg() string {
+	if nodeCfgDir != "" {
+		return nodeCfgDir
+	}
+	dir, err := os.MkdirTemp("", "c11node")
+	if err != nil {
+		panic(err)
+	}
+	nodes := "---\nnodes:\n  n1:\n    StartMode: " + launchMode + "\n    Address: 127.0.0.1:39511\nservices:\n"
+	cluster := "---\nEnable: false\nNodeCtrl: false\nName: c11verif\n"
+	os.WriteFile(filepath.Join(dir, "nodes.yaml"), []byte(nodes), 0o644)
+	os.WriteFile(filepath.Join(dir, "cluster.yaml"), []byte(cluster), 0o644)
+	baseapp.RegisterLaunchFunc(launchMode, func(app interfaces.IApp) {
+		c := cur
+		if c == nil || c.added { // a launch mode of our own: it adds the case's modules once
+			return
+		}
+		c.added = true
+		for _, m := range c.mods {
+			app.AddModule(m)
+		}
+	})
+	nodeCfgDir = dir
+	return dir
 }
 
 var (
@@ -93,12 +132,19 @@ func scripts(ws []string, key string, n int) []string {
 }
 
 func dispose(c *caseT) {
-	if c == nil || c.app == nil {
+	if c == nil {
+		return
+	}
+	a := c.app
+	if c.node != nil {
+		a = c.node.App
+	}
+	if a == nil {
 		return
 	}
 	func() {
 		defer func() { recover() }() // already stopped by App.Cleanup: close of closed channel
-		if rs := c.app.GetRunService(); rs != nil && !rs.IsStopped() {
+		if rs := a.GetRunService(); rs != nil && !rs.IsStopped() {
 			rs.Stop()
 		}
 	}()
@@ -136,23 +182,26 @@ func phase(ws []string) int {
 	return -1
 }
 
-// segment returns the log tokens of the op.  For an App the log of a case ends with the first
-// fxT: what a further (necessarily undisciplined) completion does to a cleaned-up App — a second
-// Cleanup closes a closed channel — is outside the property and is not compared.
+// segment returns the log tokens of the op.  For an App the log of a case ends with the second
+// fxT: what follows — the second Cleanup closes a closed channel — is outside the property (it needs
+// a double completion) and is not compared.
 func (c *caseT) segment(extra string) string {
 	seg := c.log
 	c.log = nil
 	if extra != "" {
 		seg = append(seg, extra)
 	}
-	if c.isApp && !c.over {
+	if c.isApp() && !c.over {
 		for i, t := range seg {
 			if t == "fxT" {
-				c.over = true
-				if extra != "blocked" {
-					seg = seg[:i+1]
+				c.fxT++
+				if c.fxT >= 2 {
+					c.over = true
+					if extra != "blocked" {
+						seg = seg[:i+1]
+					}
+					break
 				}
-				break
 			}
 		}
 	}
@@ -160,6 +209,56 @@ func (c *caseT) segment(extra string) string {
 		return "-"
 	}
 	return strings.Join(seg, " ")
+}
+
+// invoke begins a phase on the object under test with the scripted completion callback.
+func (c *caseT) invoke(ph int) {
+	saved := make([]interfaces.FuncWithSucc, len(c.mods))
+	for i, m := range c.mods {
+		saved[i] = m.next[ph]
+		m.next[ph] = nil
+	}
+	before := len(c.log)
+	fin := func(succ bool) {
+		c.logf("%s%s", finTok[ph], tf(succ))
+		switch c.cb[ph] {
+		case "stop":
+			c.logf("RX")
+			c.invoke(1)
+		case "start":
+			c.logf("RS")
+			c.invoke(0)
+		case "gostop": // hands the Stop to another goroutine, which runs before this callback returns
+			c.logf("RX")
+			done := make(chan interface{}, 1)
+			go func() {
+				defer func() { done <- recover() }()
+				c.invoke(1)
+			}()
+			if e := <-done; e != nil {
+				panic(e)
+			}
+		}
+	}
+	switch {
+	case c.kind == 2 && ph == 0:
+		c.node.StartNode("n1", fin)
+	case c.kind == 2:
+		c.node.StopNode(fin)
+	case c.kind == 1 && ph == 0:
+		c.app.Start(fin)
+	case c.kind == 1:
+		c.app.Stop(fin)
+	case ph == 0:
+		c.ml.Start(fin)
+	default:
+		c.ml.Stop(fin)
+	}
+	if len(c.log) == before { // the guard refused: the old phase instance is still the current one
+		for i, m := range c.mods {
+			m.next[ph] = saved[i]
+		}
+	}
 }
 
 // exec interprets one op line against the real code.
@@ -172,53 +271,42 @@ func exec(op string) string {
 	case "reset":
 		dispose(cur)
 		n := hx.KVInt(ws, "n")
-		c := &caseT{n: n, isApp: hx.KVInt(ws, "app") == 1}
+		c := &caseT{n: n, kind: hx.KVInt(ws, "app")}
+		for ph, key := range []string{"cbS", "cbX"} {
+			c.cb[ph] = "none"
+			if v, ok := hx.KV(ws, key); ok && v != "" {
+				c.cb[ph] = v
+			}
+		}
 		st, sp := scripts(ws, "start", n), scripts(ws, "stop", n)
-		if c.isApp {
+		for i := 0; i < n; i++ {
+			c.mods = append(c.mods, &mod{id: i, c: c, scripts: [2]string{st[i], sp[i]}})
+		}
+		cur = c
+		switch c.kind {
+		case 2: // the launch mode adds the modules inside StartNode
+			dir := nodeCfg()
+			c.node = nodeapp.NewNode()
+			c.node.Prepare(dir)
+		case 1:
 			c.app = baseapp.NewApp()
 			c.app.Prepare()
-		} else {
-			c.ml = module.NewModList()
-		}
-		for i := 0; i < n; i++ {
-			m := &mod{id: i, c: c, scripts: [2]string{st[i], sp[i]}}
-			c.mods = append(c.mods, m)
-			if c.isApp {
+			for _, m := range c.mods {
 				c.app.AddModule(m)
-			} else {
+			}
+		default:
+			c.ml = module.NewModList()
+			for _, m := range c.mods {
 				c.ml.AddModule(m)
 			}
 		}
-		cur = c
 		return "ok"
 	case "begin":
 		c, ph := cur, phase(ws)
 		if c == nil || ph < 0 {
 			return "bad-op"
 		}
-		saved := make([]interfaces.FuncWithSucc, len(c.mods))
-		for i, m := range c.mods {
-			saved[i] = m.next[ph]
-			m.next[ph] = nil
-		}
-		fin := func(succ bool) { c.logf("%s%s", finTok[ph], tf(succ)) }
-		r := guarded(func() {
-			switch {
-			case c.isApp && ph == 0:
-				c.app.Start(fin)
-			case c.isApp:
-				c.app.Stop(fin)
-			case ph == 0:
-				c.ml.Start(fin)
-			default:
-				c.ml.Stop(fin)
-			}
-		})
-		if len(c.log) == 0 && r == "" { // the guard refused: the old phase instance is still the current one
-			for i, m := range c.mods {
-				m.next[ph] = saved[i]
-			}
-		}
+		r := guarded(func() { c.invoke(ph) })
 		return c.segment(r)
 	case "fire":
 		c, ph := cur, phase(ws)
@@ -262,8 +350,38 @@ func exec(op string) string {
 // ---- generator --------------------------------------------------------------------
 
 type gen struct {
-	h   *hx.T
-	run func(op string) string
+	h    *hx.T
+	emit func(op string) string
+	n    int
+	logs [2][]string // tokens of the current instance of each phase, from the observations
+}
+
+// run executes an op and files the observed tokens under their phase.
+func (g *gen) run(op string) string {
+	obs := g.emit(op)
+	if strings.HasPrefix(op, "reset") {
+		g.n = hx.KVInt(hx.Words(op), "n")
+		g.logs = [2][]string{}
+		return obs
+	}
+	for _, t := range strings.Fields(obs) {
+		ph := -1
+		switch {
+		case strings.HasPrefix(t, "S"), strings.HasPrefix(t, "c"), strings.HasPrefix(t, "fs"), strings.HasPrefix(t, "p") && t != "panic":
+			ph = 0
+		case strings.HasPrefix(t, "X"), strings.HasPrefix(t, "d"), strings.HasPrefix(t, "fx"), strings.HasPrefix(t, "q"):
+			ph = 1
+		}
+		if ph < 0 {
+			continue
+		}
+		// a phase instance begins by entering the first module of its order
+		if t == "S0" || t == fmt.Sprintf("X%d", g.n-1) {
+			g.logs[ph] = nil
+		}
+		g.logs[ph] = append(g.logs[ph], t)
+	}
+	return obs
 }
 
 // outstanding returns the modules that were entered in the phase log but have not called next.
@@ -293,37 +411,40 @@ func outstanding(log []string, ph int) []int {
 	return out
 }
 
-var vias = []string{"go", "direct", "timer"}
+func finished(log []string, ph int) bool {
+	for _, t := range log {
+		if strings.HasPrefix(t, finTok[ph]) {
+			return true
+		}
+	}
+	return false
+}
 
-// drive completes a phase: begin, then fire the outstanding (delayed) modules one by one
-// with the planned outcome until the phase reports or nothing is outstanding.
-func (g *gen) drive(ph int, plan func(i int) string) {
-	phs := []string{"S", "X"}[ph]
-	obs := g.run("begin ph=" + phs)
-	var log []string
-	log = append(log, strings.Fields(obs)...)
+var vias = []string{"go", "direct", "timer"}
+var phName = []string{"S", "X"}
+
+// settle fires the outstanding (delayed) modules of a phase one by one with the planned outcome
+// until the phase reports or nothing is outstanding.
+func (g *gen) settle(ph int, plan func(i int) string) {
 	for k := 0; k < 20; k++ {
-		out := outstanding(log, ph)
-		if len(out) == 0 {
+		out := outstanding(g.logs[ph], ph)
+		if len(out) == 0 || finished(g.logs[ph], ph) {
 			return
 		}
-		done := false
-		for _, t := range log {
-			if strings.HasPrefix(t, finTok[ph]) {
-				done = true
-			}
-		}
-		if done {
-			return
-		}
-		i := out[0]
-		b := plan(i)
+		b := plan(out[0])
 		if b == "" {
 			return // this module never completes
 		}
-		obs = g.run(fmt.Sprintf("fire ph=%s i=%d b=%s via=%s", phs, i, b, vias[g.h.R.Intn(len(vias))]))
-		log = append(log, strings.Fields(obs)...)
+		g.run(fmt.Sprintf("fire ph=%s i=%d b=%s via=%s", phName[ph], out[0], b, vias[g.h.R.Intn(len(vias))]))
 	}
+}
+
+// drive begins a phase and completes it.
+func (g *gen) drive(ph int, plan func(i int) string) {
+	if g.run("begin ph="+phName[ph]) == "-" {
+		return
+	}
+	g.settle(ph, plan)
 }
 
 func join(n int, f func(i int) string) string {
@@ -334,8 +455,10 @@ func join(n int, f func(i int) string) string {
 	return strings.Join(p, ",")
 }
 
+func allT(i int) string { return "T" }
+
 // exhaustive: every list length, every failure position (or none), every choice of
-// synchronous / delayed completion per module, in both phases.
+// synchronous / delayed completion per module, in both phases; ModList, App and node in turn.
 func (g *gen) exhaustive(maxN int) {
 	cases := 0
 	for n := 0; n <= maxN; n++ {
@@ -354,8 +477,7 @@ func (g *gen) exhaustive(maxN int) {
 						}
 						return outcome(i)
 					}
-					allT := func(i int) string { return "T" }
-					app := (n + fail + 1 + mask + ph) % 2
+					app := (n + fail + 1 + mask + ph) % 3
 					if ph == 0 {
 						g.run(fmt.Sprintf("reset n=%d app=%d kind=gen start=%s stop=%s", n, app, join(n, scr), join(n, allT)))
 						g.drive(0, outcome)
@@ -372,6 +494,53 @@ func (g *gen) exhaustive(maxN int) {
 		}
 	}
 	g.h.Stats["exhaustive.cases(n,failpos,syncmask,phase)"] = cases
+}
+
+// reentrant: the start-completion callback itself issues Stop (directly, or through another goroutine
+// that runs before the callback returns); the stop-completion callback issues Start / Stop.
+// ModList.Filter holds its (non-reentrant) lock while the synchronous chain of a Start()/Stop() call
+// runs, so a Stop from a completion callback is only legal when the completion that ends the phase
+// arrives after Filter has returned: module 0 always completes later (through `fire`).
+func (g *gen) reentrant(maxN int) {
+	cases := 0
+	for n := 1; n <= maxN; n++ {
+		for app := 0; app < 3; app++ {
+			for _, cbS := range []string{"stop", "gostop"} {
+				for fail := -1; fail < n; fail++ {
+					for v := 0; v < 3; v++ {
+						outcome := func(i int) string {
+							if i == fail {
+								return "F"
+							}
+							return "T"
+						}
+						scr := func(i int) string {
+							if i == 0 || (v == 1 && i%2 == 0) || v == 2 {
+								return ""
+							}
+							return outcome(i)
+						}
+						stopScr := func(i int) string {
+							if v == 2 || (v == 1 && i%2 == 1) {
+								return ""
+							}
+							return "T"
+						}
+						cbX := "none"
+						if app > 0 { // on a plain ModList there is no guard: Start from the stop callback re-enters the lock
+							cbX = []string{"none", "start", "stop"}[(n+fail+1+v)%3]
+						}
+						g.run(fmt.Sprintf("reset n=%d app=%d kind=gen start=%s stop=%s cbS=%s cbX=%s", n, app, join(n, scr), join(n, stopScr), cbS, cbX))
+						g.drive(0, outcome)
+						g.settle(1, allT) // the stop phase that the callback began
+						g.run("begin ph=X")
+						cases++
+					}
+				}
+			}
+		}
+	}
+	g.h.Stats["reentrant.cases(n,app,callback,failpos,delays)"] = cases
 }
 
 func (g *gen) randomScript(neg bool) string {
@@ -405,7 +574,7 @@ func (g *gen) randomCase() {
 	if neg {
 		kind = "neg"
 	}
-	app := h.R.Intn(2)
+	app := h.R.Intn(3)
 	h.Count(fmt.Sprintf("case.n%d", n))
 	h.Count(fmt.Sprintf("case.%s.app%d", kind, app))
 	st := make([]string, n)
@@ -413,8 +582,21 @@ func (g *gen) randomCase() {
 	for i := 0; i < n; i++ {
 		st[i], sp[i] = g.randomScript(neg), g.randomScript(neg)
 	}
-	g.run(fmt.Sprintf("reset n=%d app=%d kind=%s start=%s stop=%s", n, app, kind, strings.Join(st, ","), strings.Join(sp, ",")))
-	var logs [2][]string
+	cb := ""
+	if n >= 1 && h.R.Intn(4) == 0 {
+		// scripted completion callbacks; module 0 completes later so that no callback runs under Filter's lock
+		st[0] = ""
+		cbX := "none"
+		if app > 0 {
+			cbX = []string{"none", "start", "stop"}[h.R.Intn(3)]
+			if cbX != "none" {
+				sp[n-1] = "" // ... and the stop phase cannot end inside Stop() either
+			}
+		}
+		cb = fmt.Sprintf(" cbS=%s cbX=%s", []string{"stop", "gostop"}[h.R.Intn(2)], cbX)
+		h.Count("case.callbacks")
+	}
+	g.run(fmt.Sprintf("reset n=%d app=%d kind=%s start=%s stop=%s%s", n, app, kind, strings.Join(st, ","), strings.Join(sp, ","), cb))
 	steps := 2 + h.R.Intn(10)
 	for s := 0; s < steps; s++ {
 		r := h.R.Intn(10)
@@ -424,9 +606,7 @@ func (g *gen) randomCase() {
 			if s > 0 && h.R.Intn(2) == 0 {
 				ph = 1
 			}
-			obs := g.run("begin ph=" + []string{"S", "X"}[ph])
-			if obs != "-" {
-				logs[ph] = strings.Fields(obs)
+			if g.run("begin ph="+phName[ph]) != "-" {
 				h.Count("op.begin.effective")
 			} else {
 				h.Count("op.begin.refused")
@@ -434,38 +614,32 @@ func (g *gen) randomCase() {
 		case r < 9 || !neg:
 			// complete an outstanding module (the disciplined move)
 			ph := h.R.Intn(2)
-			out := outstanding(logs[ph], ph)
+			out := outstanding(g.logs[ph], ph)
 			if len(out) == 0 {
 				ph = 1 - ph
-				out = outstanding(logs[ph], ph)
+				out = outstanding(g.logs[ph], ph)
 			}
 			if len(out) == 0 {
 				// nothing pending: begin the phase that makes sense next
 				ph = 0
-				if len(logs[0]) > 0 {
+				if len(g.logs[0]) > 0 {
 					ph = 1
 				}
-				obs := g.run("begin ph=" + []string{"S", "X"}[ph])
-				if obs != "-" {
-					logs[ph] = strings.Fields(obs)
-				}
+				g.run("begin ph=" + phName[ph])
 				continue
 			}
 			b := "T"
 			if h.R.Intn(6) == 0 {
 				b = "F"
 			}
-			obs := g.run(fmt.Sprintf("fire ph=%s i=%d b=%s via=%s", []string{"S", "X"}[ph], out[0], b, vias[h.R.Intn(3)]))
-			logs[ph] = append(logs[ph], strings.Fields(obs)...)
+			g.run(fmt.Sprintf("fire ph=%s i=%d b=%s via=%s", phName[ph], out[0], b, vias[h.R.Intn(3)]))
 			h.Count("op.fire.outstanding")
 		default:
 			// negative stream: any module, any phase, again and again, also ones that were never entered
-			ph := h.R.Intn(2)
 			if n == 0 {
 				continue
 			}
-			obs := g.run(fmt.Sprintf("fire ph=%s i=%d b=%s via=%s", []string{"S", "X"}[ph], h.R.Intn(n), tf(h.R.Intn(3) > 0), vias[h.R.Intn(3)]))
-			logs[ph] = append(logs[ph], strings.Fields(obs)...)
+			g.run(fmt.Sprintf("fire ph=%s i=%d b=%s via=%s", phName[h.R.Intn(2)], h.R.Intn(n), tf(h.R.Intn(3) > 0), vias[h.R.Intn(3)]))
 			h.Count("op.fire.arbitrary")
 		}
 	}
@@ -505,12 +679,11 @@ func (g *gen) shipped() {
 					}
 					return "T"
 				}
-				allT := func(i int) string { return "T" }
 				st, sp := join(3, scr), join(3, allT)
 				if m.Phase == "stop" {
 					st, sp = sp, st
 				}
-				g.run(fmt.Sprintf("reset n=3 app=%d kind=shipped start=%s stop=%s name=%s", pos%2, st, sp, m.Name))
+				g.run(fmt.Sprintf("reset n=3 app=%d kind=shipped start=%s stop=%s name=%s", pos%3, st, sp, m.Name))
 				g.run("begin ph=S")
 				g.run("begin ph=X")
 				g.h.Count("shipped.path-replayed")
@@ -535,7 +708,7 @@ func TestRun(t *testing.T) {
 		}
 		return
 	}
-	g := &gen{h: h, run: run}
+	g := &gen{h: h, emit: run}
 	for _, op := range hx.CorpusOps(hx.Env("VERIF_CORPUS", "corpus/C11")) {
 		h.Count("corpus")
 		run(op)
@@ -546,9 +719,13 @@ func TestRun(t *testing.T) {
 		maxN = 7
 	}
 	g.exhaustive(hx.EnvInt("VERIF_MAXN", maxN))
+	g.reentrant(4)
 	n := hx.EnvInt("VERIF_N", 1500)
 	for i := 0; i < n; i++ {
 		g.randomCase()
 	}
 	dispose(cur)
+	if nodeCfgDir != "" {
+		os.RemoveAll(nodeCfgDir)
+	}
 }
